@@ -252,7 +252,10 @@ func (h NativeKeyHashRecord[K]) EqualNative(thread *Thread, other NativeKeyHashR
 	}
 
 	for hkey, hval := range h {
-		oval := other[hkey]
+		oval, present := other[hkey]
+		if !present {
+			return false, value.Undefined
+		}
 		eqVal, err := Equal(thread, hval.ToValue(), oval.ToValue())
 		if !err.IsUndefined() {
 			return false, err
@@ -283,7 +286,10 @@ func (h NativeKeyHashRecord[K]) LaxEqualNative(thread *Thread, other NativeKeyHa
 	}
 
 	for hkey, hval := range h {
-		oval := other[hkey]
+		oval, present := other[hkey]
+		if !present {
+			return false, value.Undefined
+		}
 		eqVal, err := LaxEqual(thread, hval.ToValue(), oval.ToValue())
 		if !err.IsUndefined() {
 			return false, err
